@@ -72,10 +72,15 @@ def make_case(inp):
                 fresh.append("unreadable")
             else:
                 text = V.encode(SPEC, FILES[f])
-                paths.append(w.write_data("data%d.csv" % i, text))
+                paths.append(w.write_data((inp.get("names") or {}).get(str(i), "data%d.csv" % i), text))
                 raws, fault = V.raw_rows(cid_for_rows, SPEC, text)
                 coq_files.append("(Readable %s %s)" % (L(raws, lambda r: L(r, S)), B(fault)))
                 fresh.append(text)
+        for name, kind in (inp.get("siblings") or {}).items():
+            # further files in the same folder that are not named on the command line
+            w.write_data(name, V.encode(SPEC, FILES[kind]))
+        if inp.get("drop") is not None:
+            paths = [p for k, p in enumerate(paths) if k not in inp["drop"]]
         argv = ([] if until is None else ["--until", str(until)]) + [cid_path] + paths
         if inp.get("subprocess"):
             p = subprocess.run([sys.executable, "-m", "cutplace.applications"] + argv, stdout=subprocess.DEVNULL, stderr=subprocess.DEVNULL,
@@ -147,6 +152,11 @@ def gen_inputs(tier, rnd):
                 if tier == "quick" and len(files) == 2 and until in (None, 3):
                     continue
                 yield {"cid": "valid", "files": files, "until": until, "spec": spec_name}
+    # names that a shell would read as patterns are names: the file that is named is judged, not its neighbours
+    yield {"cid": "valid", "files": ["field"], "until": None, "names": {"0": "data[1].csv"}, "siblings": {"data1.csv": "accepted"}}
+    yield {"cid": "valid", "files": ["accepted"], "until": None, "names": {"0": "what?.csv"}, "siblings": {"whatX.csv": "field"}}
+    yield {"cid": "valid", "files": ["accepted", "unique"], "until": None, "names": {"0": "a*.csv", "1": "b[ab].csv"}, "siblings": {"abc.csv": "field", "ba.csv": "accepted"}}
+    yield {"cid": "valid", "files": ["accepted"], "until": 1, "names": {"0": "[x].csv"}, "siblings": {"x.csv": "field"}}
     for cid in ("rejected", "missing"):
         for files in ([], ["accepted"], ["missing"], ["field", "accepted"]):
             for until in UNTILS:
